@@ -448,7 +448,7 @@ func runC20(r *Run, verifDir string) {
 				}
 				if forbidden[typeName(ft)] && typePkgPath(ft) == ttlvPath {
 					okS = false
-					r.Bad("C20.E5", "ttlv.Stream."+st.Field(i).Name(), st.Field(i).Pos(), "Stream keeps a %s across messages", typeName(ft))
+					r.Bad("C20.E5", "ttlv.Stream."+fname(st.Field(i)), st.Field(i).Pos(), "Stream keeps a %s across messages", typeName(ft))
 				}
 			}
 			if okS {
@@ -493,7 +493,7 @@ func runC20(r *Run, verifDir string) {
 				if st, ok := in.(*ssa.Store); ok {
 					if base, fld, ok := fieldAddrOf(st.Addr); ok && typeName(base.Type()) == wt {
 						if _, isAlloc := base.(*ssa.Alloc); !isAlloc {
-							mutated[fld.Name()] = true
+							mutated[fname(fld)] = true
 						}
 					}
 				}
@@ -504,25 +504,25 @@ func runC20(r *Run, verifDir string) {
 			switch x := in.(type) {
 			case *ssa.Store:
 				if _, fld, ok := fieldAddrOf(x.Addr); ok {
-					reset[fld.Name()] = true
+					reset[fname(fld)] = true
 				}
 			case *ssa.Call:
 				id := callID(&x.Call)
 				if id.pkg == "bytes" && id.recv == "Buffer" && id.name == "Reset" {
 					if u, ok := x.Call.Args[0].(*ssa.UnOp); ok {
 						if _, fld, ok := fieldAddrOf(u.X); ok {
-							reset[fld.Name()] = true
+							reset[fname(fld)] = true
 						}
 					}
 				}
 			}
 		})
 		// bytes.Buffer fields are mutated through method calls, not stores: treat every *bytes.Buffer field as mutated
-		if o := p.Pkg("ttlv").Types.Scope().Lookup(wt); o != nil {
+		if o := p.Pkg("ttlv").Types.Scope().Lookup(curTypeName(ttlvPath, wt)); o != nil {
 			st := o.Type().Underlying().(*types.Struct)
 			for i := 0; i < st.NumFields(); i++ {
 				if pt, ok := st.Field(i).Type().(*types.Pointer); ok && isNamed(pt.Elem(), "bytes", "Buffer") {
-					mutated[st.Field(i).Name()] = true
+					mutated[fname(st.Field(i))] = true
 				}
 			}
 		}
@@ -544,7 +544,7 @@ func runC20(r *Run, verifDir string) {
 		resets := false
 		allInstrs(cf, func(in ssa.Instruction) {
 			if st, ok := in.(*ssa.Store); ok && isNilConst(st.Val) {
-				if _, fld, ok := fieldAddrOf(st.Addr); ok && fld.Name() == "version" {
+				if _, fld, ok := fieldAddrOf(st.Addr); ok && fname(fld) == "version" {
 					resets = true
 				}
 			}
